@@ -78,6 +78,14 @@ func genLargeCfg(t *rapid.T, kind string) PCfg {
 		}
 		c.ShrinkSize = rapid.SampledFrom([]int{0, 1024, 100_000}).Draw(t, "shrBig")
 	}
+	if !sa && rapid.IntRange(0, 7).Draw(t, "giantBlocks") == 0 {
+		// blocks of several MiB (genLargeHistory then feeds a stream with
+		// repetitions that are longer than a MiB)
+		c.BlockSize = rapid.SampledFrom([]int{2 * miB, 4 * miB, 3*miB + 1}).Draw(t, "blkGiant")
+		c.BufferSize = rapid.SampledFrom([]int{0, 6 * miB}).Draw(t, "bufGiant")
+		c.WindowSize = rapid.SampledFrom([]int{0, 0, 65536, 8 * miB}).Draw(t, "winGiant")
+		c.ShrinkSize = rapid.SampledFrom([]int{0, 1024}).Draw(t, "shrGiant")
+	}
 	switch kind {
 	case "HP", "BHP", "BUP":
 		c.InputLen = rapid.SampledFrom([]int{0, 3, 4, 6, 8, 5, 7}).Draw(t, "inputLen")
@@ -165,6 +173,37 @@ func largeStream(t *rapid.T, total int) []byte {
 	return out[:total]
 }
 
+// giantStream: 2.5 to 4.5 MiB made of a few stretches, each a short word (1 to
+// 9 bytes, or a generated text) repeated for hundreds of kilobytes up to 3 MiB -
+// matches whose source overlaps them and that are longer than a MiB - with
+// single changed bytes in between.
+func giantStream(t *rapid.T) []byte {
+	total := 2*miB + miB/2 + (miB/4)*rapid.IntRange(0, 8).Draw(t, "giantTotal")
+	out := make([]byte, 0, total)
+	for len(out) < total {
+		var word []byte
+		if rapid.IntRange(0, 4).Draw(t, "giantLongWord") == 0 {
+			word = genText(t, "giantWord", 3000)
+		} else {
+			n := rapid.IntRange(1, 9).Draw(t, "giantPeriod")
+			for i := 0; i < n; i++ {
+				word = append(word, rapid.SampledFrom([]byte{'a', 'b', 'c', 0, 0xff}).Draw(t, "giantLetter"))
+			}
+		}
+		if len(word) == 0 {
+			word = []byte{'z'}
+		}
+		n := rapid.SampledFrom([]int{3 * miB, miB + miB/2, 2 * miB, miB + 100, 300_000, 5 * miB}).Draw(t, "giantStretch")
+		for k := 0; k < n && len(out) < total; k++ {
+			out = append(out, word[k%len(word)])
+		}
+		if len(out) < total {
+			out = append(out, rapid.SampledFrom([]byte{'x', 'a', 0}).Draw(t, "giantBreak"))
+		}
+	}
+	return out
+}
+
 // genLargeHistory delivers a long stream through Write and ReadFrom (scripted
 // readers with large and small chunks), parsing and shrinking in between.
 func genLargeHistory(t *rapid.T, x *parserExec, parseNil bool) {
@@ -175,7 +214,12 @@ func genLargeHistory(t *rapid.T, x *parserExec, parseNil bool) {
 	if sa {
 		total = 120_000 - 5_000*rapid.IntRange(0, 19).Draw(t, "totalSA")
 	}
-	stream := largeStream(t, total)
+	var stream []byte
+	if cc.BlockSize > miB && cc.BufferSize >= 4*miB {
+		stream = giantStream(t)
+	} else {
+		stream = largeStream(t, total)
+	}
 	pos := 0
 	for steps := 0; pos < len(stream) && steps < 60 && !x.dead; steps++ {
 		room := cc.BufferSize - x.buffered()
